@@ -219,7 +219,7 @@ def gen_chunk(rng, tag, ptype, tlen, optional, vals, nulls, knobs):
             store = ["plain", pv]
         items.append({"v2": v2, "n": len(pn), "def": defruns, "store": store,
                       "iscomp": rng.choice([None, True, False]) if v2 else None,
-                      "trail": rng.choice(["", "", "0000000000000000"]) if not v2 else ""})
+                      "trail": rng.choice(["", "", "0000000000000000", "a5ff01"]) if not v2 else ""})
     return {"codec": knobs["codec"], "stats": rng.random() < 0.7, "items": items}
 
 
